@@ -397,7 +397,10 @@ class Tr:
             if m == 'abs': return '(fabs neg %s)' % x
             if m == 'is_negative': return '(neg %s)' % x
             if m == 'is_nonnegative': return '(negb (neg %s))' % x
-            if m == 'is_zero': return '(feqb %s 0)' % x
+            if m == 'is_zero':
+                if tx == 'P' and 'is_zero_P' in self.cfg.get('methods', {}): return '(%s %s)' % (self.cfg['methods']['is_zero_P'], x)
+                return '(feqb %s 0)' % x
+            if m == 'is_one': return '(feqb %s 1)' % x
             if m == 'ct_eq': return '(feqb %s %s)' % (x, self.e(n.args[0]))
             if m == 'pow_le_limbs': return '(%s %s %s)' % (self.cfg['calls']['pow_le_limbs'][0], x, self.e(n.args[0]))
             if m == 'our_sqrt': return '(%s %s)' % (self.cfg['calls']['our_sqrt'][0], x)
@@ -408,8 +411,11 @@ class Tr:
                 return '(fpow %s %s)' % (x, self.e(n.args[0]))
             raise TranslationError('method .%s() outside the subset' % m)
         if k == 'field':
+            if self.cfg.get('mutself') and n.e.k == 'var' and n.e.name == 'self' and n.name in ('x', 'y', 'z', 't'):
+                return 'self_' + n.name          # current value of the (mutable) field
             x = self.e(n.e)
             if n.name in ('inner', '0'): return x
+            if n.name in ('x', 'y') and n.e.k == 'var' and n.e.name in self.cfg.get('affine_vars', ()): return '(a%s %s)' % (n.name.upper(), x)
             if n.name in ('x', 'y', 'z', 't'): return '(p%s %s)' % (n.name.upper(), x)
             raise TranslationError('field .%s' % n.name)
         if k == 'call':
@@ -519,11 +525,14 @@ class Tr:
             if s.op == '=': rhs = self.e(s.rhs)
             else: rhs = self.e(N('bin', op=s.op[:-1], a=cur, b=s.rhs))
             if v.startswith('self.'):
-                raise TranslationError('field assignment handled by caller')
+                if not self.cfg.get('mutself'): raise TranslationError('field assignment handled by caller')
+                return 'let self_%s := %s in\n    %s' % (v[5:], rhs, self.stmts(rest, k))
             if s.op == '=' and v not in self.ty: self.ty[v] = self.typeof(s.rhs)
             return 'let %s := %s in\n    %s' % (v, rhs, self.stmts(rest, k))
         if s.k == 'return':
             return ('(Some %s)' % self.e(s.e)) if self.cfg.get('option_ret') else self.e(s.e)
+        if s.k == 'exprstmt' and self.cfg.get('mutself') and not rest and s.e.k == 'var' and s.e.name == 'self':
+            return self.cfg['k']
         if s.k == 'exprstmt':
             e = s.e
             if e.k == 'if':
@@ -724,6 +733,8 @@ def gen_one(name, path, fn, kw, cfg):
     tr = Tr(cfg)
     if cfg.get('selfty'): tr.ty['self'] = cfg['selfty']
     val = tr.stmts(ast, cfg.get('k'))
+    if cfg.get('mutself'):
+        val = ''.join('let self_%s := (p%s self) in\n    ' % (c, c.upper()) for c in 'xyzt') + val
     return '  Definition %s %s :=\n    %s.\n' % (name, cfg['sig'], val)
 
 def main(outdir):
